@@ -8,6 +8,7 @@ import (
 	"time"
 
 	"verif/gosym"
+	"verif/smt"
 )
 
 func usage() {
@@ -77,6 +78,7 @@ func cmdRun(args []string) {
 		fmt.Fprintln(os.Stderr, err)
 		os.Exit(2)
 	}
+	fmt.Fprintf(os.Stderr, "solver: sat=%d unsat=%d unknown=%d time=%.2fs\n", smt.StatSat, smt.StatUnsat, smt.StatUnknown, float64(smt.StatNanos)/1e9)
 	res.Functions = nil
 	b, _ := json.MarshalIndent(res, "", " ")
 	fmt.Println(string(b))
